@@ -45,7 +45,10 @@ GraphTask(c, m) == MsgC(c, m).task \in {"ta", "ts"}
 NMw(c) == Len(c.mws)
 HookMode(c, i, h) == CASE h = "pre" -> c.mws[i].pre [] h = "onerr" -> c.mws[i].onerr
                        [] h = "post" -> c.mws[i].post [] OTHER -> c.mws[i].postsave
-HookIdx(c, h) == SelectSeq([i \in 1..NMw(c) |-> i], LAMBDA i : HookMode(c, i, h) # "")
+(* a middleware flagged `late` is registered while the worker runs (scenario step "register"): its hooks apply to the   *)
+(* messages that arrive afterwards (flag `afterreg`)                                                                      *)
+HookIdx(c, m, h) == SelectSeq([i \in 1..NMw(c) |-> i],
+                              LAMBDA i : HookMode(c, i, h) # "" /\ (~c.mws[i].late \/ MsgC(c, m).afterreg))
 FatalHookRaises(c) == \E i \in 1..NMw(c) : \E h \in {"pre", "onerr", "post"} : HookMode(c, i, h) = "raise"
 PostSaveRaises(c) == \E i \in 1..NMw(c) : HookMode(c, i, "postsave") = "raise"
 AckT(c) == IF c.ack = "default" THEN "when_saved" ELSE c.ack
@@ -115,14 +118,14 @@ WillDepFail(c, m) == \E i \in DOMAIN DepsOf(c, m) : DepsOf(c, m)[i].fail
 OutcomeR(c, m, r) == IF r.en > 0 THEN r.oc ELSE IF WillDepFail(c, m) THEN "depfail" ELSE "none"
 
 (* expected hook/stage sequence for outcome oc, whether a result was stored ok *)
-HookSeq(c, h) == [k \in 1..Len(HookIdx(c, h)) |-> <<h, HookIdx(c, h)[k]>>]
-ExpectedStages(c, oc, started, saved, saveok) ==
-     HookSeq(c, "pre")
+HookSeq(c, m, h) == [k \in 1..Len(HookIdx(c, m, h)) |-> <<h, HookIdx(c, m, h)[k]>>]
+ExpectedStages(c, m, oc, started, saved, saveok) ==
+     HookSeq(c, m, "pre")
   \o (IF started THEN <<<<"start", 0>>>> ELSE <<>>)
-  \o (IF oc \in ErrOutcomes THEN HookSeq(c, "onerr") ELSE <<>>)
-  \o HookSeq(c, "post")
+  \o (IF oc \in ErrOutcomes THEN HookSeq(c, m, "onerr") ELSE <<>>)
+  \o HookSeq(c, m, "post")
   \o (IF saved THEN <<<<"save", 0>>>> ELSE <<>>)
-  \o (IF saved /\ saveok THEN HookSeq(c, "postsave") ELSE <<>>)
+  \o (IF saved /\ saveok THEN HookSeq(c, m, "postsave") ELSE <<>>)
 StageOf(r) == CASE r.e = "pre_b" -> <<"pre", r.x>> [] r.e = "onerr_b" -> <<"onerr", r.x>>
                 [] r.e = "post_b" -> <<"post", r.x>> [] r.e = "postsave_b" -> <<"postsave", r.x>>
                 [] r.e = "start" -> <<"start", 0>> [] OTHER -> <<"save", 0>>
@@ -134,7 +137,7 @@ C10StagesOK(c, m, L, oc) ==
       cands == IF oc = "none" THEN {"ret", "exc", "nores"} ELSE {oc}
   IN \E k \in cands : \E sv \in BOOLEAN : \E ok \in BOOLEAN :
         /\ (k = "nores" => ~sv)
-        /\ IsPrefixOf(obsS, ExpectedStages(c, k, oc # "depfail", sv, ok))
+        /\ IsPrefixOf(obsS, ExpectedStages(c, m, k, oc # "depfail", sv, ok))
 
 (* hooks: every begin is followed by its end before the next begin; gen ok *)
 C10HookPairsOK(c, L) ==
@@ -240,7 +243,7 @@ PerMsg(c, o, m, L, ev) ==
            /\ ~(C10HookPairsOK(c, L) /\ C10GenOK(c, m, ev))
         THEN {"C10_HookOnce"} ELSE {})
   \cup (IF valid /\ ev.e = "cb_e" /\ endedOk /\ hooksOk /\ oc # "none" /\ ~PostSaveRaises(c)
-           /\ ObservedStages(L) # ExpectedStages(c, oc, oc # "depfail", r.sb = 1, r.se > 0 /\ r.seOk)
+           /\ ObservedStages(L) # ExpectedStages(c, m, oc, oc # "depfail", r.sb = 1, r.se > 0 /\ r.seOk)
         THEN {"C10_Complete"} ELSE {})
   \cup (IF valid /\ ev.e = "cb_e" /\ ~endedOk /\ hooksOk THEN {"C10_Complete"} ELSE {})
   (* on_error / post_execute / saving come AFTER the task function: a coroutine that was started has ended by then *)
